@@ -155,6 +155,10 @@ Definition read_destination (d : bytes) : res (kac * bytes) :=
 Definition new_destination (k : kac) : res kac :=
   if negb (kac_validate k) then Err else if dest_types_ok k then Ok k else Err.
 
+(* Hash / Base32Address / Base64 / Equals: all functions of KeysAndCert.Bytes().  The hash
+   function is external: [h] is SHA-256 of the serialisation, supplied by the caller. *)
+Definition strip_trailing_pad (s : bytes) : bytes :=
+  rev (let fix drop l := match l with x :: t => if (x =? 61)%N then drop t else l | [] => [] end in drop (rev s)).
 (* ---- router_identity ---- *)
 Definition ri_types_ok (k : kac) : bool :=
   negb (ri_signing_denied (kc_signing_type (k_kc k))) && negb (ri_crypto_denied (kc_crypto_type (k_kc k))).
